@@ -96,6 +96,8 @@ func checkC04Write(c c04WriteCase) string {
 	s := toSubtitlesSSA(c.Doc)
 	if c.Foreign {
 		addForeignMetadata("ssa", s)
+		addForeignAttributes("ssa", s)
+		priorFailedWrite("ssa", 5+len(s.Items)*37, len(s.Items)%3)
 	}
 	var buf bytes.Buffer
 	err := s.WriteToSSA(&buf)
